@@ -110,4 +110,60 @@ class SortRecords(Contract):
         I.e.prove('C11/sort_records/raise/only-for-utr-records-without-cds', z3.And(exc.cls == 'ValueError', st.n['utr'] > 0, st.n['cds'] == 0))
 
 
+GAM = 'moPepGen/gtf/GeneAnnotationModel.py'
+
+
+@register
+class GeneSequence(Contract):
+    """get_gene_sequence(chrom): the bases of the chromosome from the gene start to the gene end, read in the direction of the gene:
+    position i of the result is chrom[start + i] on the + strand and the complement of chrom[end - 1 - i] on the - strand; the length is
+    end - start; the one location of the record says [0, length) of this gene. An unstranded gene is refused"""
+    path, qualname, props = GAM, 'GeneAnnotationModel.get_gene_sequence', ('C11', 'C14', 'C15', 'C16')      # the REF bases of the parsers are read from this sequence
+    declared_raises = ['ValueError']
+    assumptions = ('assumed: Bio.Seq slicing / reverse_complement = Python str semantics with a complement involution; gene inside the chromosome; '
+                   'the record constructor stores its arguments',)
+
+    @property
+    def models(self):
+        from .c14 import install_seq_models
+        return (install_seq_models,)
+
+    def setup(self, I):
+        from pyvc.pstr import PStr
+        e = I.e
+        st = types.SimpleNamespace()
+        st.L = e.int('chrom_len')
+        st.a, st.b, st.strand = e.int('gene_start'), e.int('gene_end'), e.int('gene_strand')
+        e.assume(z3.And(0 <= st.a, st.a < st.b, st.b <= st.L))
+        st.C = PStr.sym(e, 'chrom', st.L)
+        loc = SymObj('FeatureLocation', start=st.a, end=st.b, strand=st.strand, seqname='chr1', reading_frame_index=None, start_offset=0, end_offset=0, ref=None, ref_db=None)
+        st.gene = SymObj('GeneAnnotationModel', location=loc, chrom='chr1', attributes={'gene_id': 'ENSG_G'}, type='gene', id='ENSG_G', qualifiers={}, source='GENCODE',
+                         frame=None, transcripts=[], exons=[], strand=st.strand, gene_id='ENSG_G')
+        st.args = [st.gene, SymObj('DNASeqRecord', seq=st.C, id='chr1', name='chr1', description='chr1')]
+        self._cur = st
+        return st
+
+    def post_return(self, I, st, ret):
+        from pyvc.pstr import PStr, cmpl
+        e = I.e
+        seq = ret.fields['seq']
+        ok = isinstance(seq, PStr)
+        i = z3.Int('i_g')
+        n = st.b - st.a
+        e.prove('C11/gene-sequence/length=gene-length', (seq.length() if is_z3(seq.length()) else z3.IntVal(seq.length())) == n if ok else False)
+        e.prove('C11/gene-sequence/base-i=chromosome-base-read-in-gene-direction',
+                z3.ForAll([i], z3.Implies(z3.And(0 <= i, i < n), seq.get(i) == z3.If(st.strand == 1, st.C.get(st.a + i), cmpl(st.C.get(st.b - 1 - i))))) if ok else False)
+        locs = ret.fields['locations']
+        good = isinstance(locs, list) and len(locs) == 1
+        if good:
+            q, r = locs[0].fields['query'], locs[0].fields['ref']
+            e.prove('C11/gene-sequence/one-location-0-to-length-on-this-gene',
+                    z3.And(q.fields['start'] == 0, q.fields['end'] == n, r.fields['start'] == 0, r.fields['end'] == n) if r.fields['seqname'] == 'ENSG_G' else False)
+        else:
+            e.prove('C11/gene-sequence/one-location-0-to-length-on-this-gene', False)
+
+    def post_raise(self, I, st, exc):
+        I.e.prove('C11/gene-sequence/raise/only-for-an-unstranded-gene', z3.And(exc.cls == 'ValueError', st.strand != 1, st.strand != -1))
+
+
 NATIVE = []
